@@ -25,6 +25,11 @@ def atoms():
         out.append(("float%d" % w, lambda st, w=w: "16/-/%x/L%x" % (st.new_type(("float", w)), w)))
     out.append(("undef", lambda st: "1/%x/%x/-" % (st.pick_type_or_value(), st.new_value())))
     out.append(("copy", lambda st: "53/%x/%x/R1" % (st.pick_type_or_value(), st.new_value())))  # OpCopyObject
+    # value definitions inside a function body: the tracker must not care where a value is defined
+    out.append(("fn", lambda st: "36/1/%x/E4.0,R3" % st.fresh()))
+    out.append(("fnend", lambda st: "38/-/-/-"))
+    out.append(("param", lambda st: "37/%x/%x/-" % (st.pick_type_or_value(), st.new_value())))
+    out.append(("iadd", lambda st: "80/%x/%x/R1,R1" % (st.pick_type_or_value(), st.new_value())))
     out.append(("const", lambda st: st.constant(0x2b)))
     out.append(("specconst", lambda st: st.constant(0x32)))
     out.append(("switch0", lambda st: st.switch(0)))
@@ -95,7 +100,7 @@ class St:
 def histories(rng, tier):
     at = atoms()
     # exhaustive short interleavings over a reduced alphabet + random longer ones
-    small = [a for a in at if a[0] in ("int32_1", "int64_0", "int8_0", "int128_0", "float16", "float64", "float7", "undef", "const", "specconst", "switch2")]
+    small = [a for a in at if a[0] in ("int32_1", "int64_0", "int8_0", "int128_0", "float16", "float64", "float7", "undef", "const", "specconst", "switch2", "fn", "iadd")]
     L = 4 if tier == "thorough" else 3
     for n in range(1, L + 1):
         for combo in itertools.product(small, repeat=n):
@@ -108,7 +113,7 @@ def histories(rng, tier):
 def run(rep):
     rep.cov["rule"] = (
         "all interleavings up to length 3 (quick) / 4 (thorough) over {OpTypeInt 8/32/64/128, OpTypeFloat 16/64/7, "
-        "typed value definition, OpConstant, OpSpecConstant, OpSwitch with 2 cases} plus random histories of length "
+        "typed value definition (also inside a function body: OpFunction, OpIAdd, OpFunctionParameter), OpConstant, OpSpecConstant, OpSwitch with 2 cases} plus random histories of length "
         "3-8 over widths {8,16,32,64,128,7} signed/unsigned, with value chains; literals are encoded at the width "
         "the declarations demand; each stream is parsed, re-assembled and parsed again in a different order of "
         "cases (history independence); non-trivial = history with a literal consumer"
@@ -131,7 +136,7 @@ def run(rep):
                 insts.append(t)
                 # value definitions propagate the tracked type of their result type
                 parts = t.split("/")
-                if parts[0] in ("1", "53") and parts[1] != "-":
+                if parts[0] in ("1", "53", "37", "80") and parts[1] != "-":
                     rt, rid = int(parts[1], 16), int(parts[2], 16)
                     if rt in st.types:
                         st.types[rid] = st.types[rt]
